@@ -33,8 +33,19 @@ theorem mem_sortBy {lt : RunFile → RunFile → Bool} {l : List RunFile} {f : R
 /-- "newest first": stamps never increase along the list -/
 def Desc (l : List RunFile) : Prop := l.Pairwise (fun a b => b.stamp ≤ a.stamp)
 
+/-- the comparator of `filterLatest` (name order, descending) respects the start time -/
+theorem nameLt_stamp {a b : RunFile} (h : nameLt b a = true) : b.stamp ≤ a.stamp := by
+  simp only [nameLt, Bool.or_eq_true, Bool.and_eq_true, decide_eq_true_eq, beq_iff_eq] at h
+  rcases h with h | h
+  · omega
+  · omega
+
+theorem not_nameLt_stamp {a b : RunFile} (h : ¬ nameLt b a = true) : a.stamp ≤ b.stamp := by
+  simp only [nameLt, Bool.or_eq_true, Bool.and_eq_true, decide_eq_true_eq, beq_iff_eq, not_or] at h
+  omega
+
 theorem insertBy_desc (x : RunFile) (l : List RunFile) (h : Desc l) :
-    Desc (insertBy (fun a b => decide (a.stamp > b.stamp)) x l) := by
+    Desc (insertBy (fun a b => nameLt b a) x l) := by
   induction l with
   | nil => simp [insertBy, Desc]
   | cons y ys ih =>
@@ -42,16 +53,14 @@ theorem insertBy_desc (x : RunFile) (l : List RunFile) (h : Desc l) :
     have hy := List.pairwise_cons.mp h
     split
     · rename_i hlt
-      have hlt' : y.stamp < x.stamp := by simpa using hlt
+      have hlt' : y.stamp ≤ x.stamp := nameLt_stamp hlt
       refine List.pairwise_cons.mpr ⟨?_, h⟩
       intro z hz
       rcases List.mem_cons.mp hz with rfl | hz
-      · omega
+      · exact hlt'
       · have := hy.1 z hz; omega
     · rename_i hlt
-      have hge : x.stamp ≤ y.stamp := by
-        have : ¬ (x.stamp > y.stamp) := by simpa using hlt
-        omega
+      have hge : x.stamp ≤ y.stamp := not_nameLt_stamp hlt
       refine List.pairwise_cons.mpr ⟨?_, ih hy.2⟩
       intro z hz
       rcases List.mem_cons.mp ((insertBy_perm _ x ys).mem_iff.mp hz) with rfl | hz
@@ -59,7 +68,7 @@ theorem insertBy_desc (x : RunFile) (l : List RunFile) (h : Desc l) :
       · exact hy.1 z hz
 
 theorem foldl_insertBy_desc (l acc : List RunFile) (h : Desc acc) :
-    Desc (l.foldl (fun acc x => insertBy (fun a b => decide (a.stamp > b.stamp)) x acc) acc) := by
+    Desc (l.foldl (fun acc x => insertBy (fun a b => nameLt b a) x acc) acc) := by
   induction l generalizing acc with
   | nil => simpa
   | cons x xs ih => exact ih _ (insertBy_desc x acc h)
@@ -294,5 +303,84 @@ theorem filesOf_apply (s : Store) (op : Op) (d' : Nat) (h : d' ∉ touches s op)
           simp [RunFile.key, this]
         simp [hfd, h1, h2]
       · simp [hfd]
+
+end BdModel.Hist
+
+namespace BdModel.Hist
+
+/-! ### the de-duplicating loop of `ReadStatusRecent` -/
+
+/-- request id of the status a file ends in -/
+def reqOf (f : RunFile) : Option Nat := (parse f).map (·.req)
+
+theorem dedup_sublist (l : List RunFile) (seen : List Nat) : (dedupFiles l seen).Sublist l := by
+  induction l generalizing seen with
+  | nil => simp [dedupFiles]
+  | cons f fs ih =>
+    simp only [dedupFiles]
+    split
+    · exact (ih seen).cons f
+    · split
+      · exact (ih seen).cons f
+      · exact (ih _).cons₂ f
+
+/-- every listed file holds a status whose request id was not seen before, and no id is listed twice -/
+theorem dedup_spec (l : List RunFile) (seen : List Nat) :
+    (∀ f ∈ dedupFiles l seen, ∃ ln, parse f = some ln ∧ ln.req ∉ seen) ∧
+    ((dedupFiles l seen).filterMap reqOf).Nodup := by
+  induction l generalizing seen with
+  | nil => simp [dedupFiles]
+  | cons f fs ih =>
+    simp only [dedupFiles]
+    split
+    · exact ih seen
+    · rename_i ln hp
+      split
+      · exact ih seen
+      · rename_i hns
+        have hns' : ln.req ∉ seen := by simpa using hns
+        obtain ⟨h1, h2⟩ := ih (ln.req :: seen)
+        constructor
+        · intro g hg
+          rcases List.mem_cons.mp hg with rfl | hg
+          · exact ⟨ln, hp, hns'⟩
+          · obtain ⟨lg, hlg, hnot⟩ := h1 g hg
+            exact ⟨lg, hlg, fun hm => hnot (List.mem_cons_of_mem _ hm)⟩
+        · have hr : reqOf f = some ln.req := by simp [reqOf, hp]
+          rw [List.filterMap_cons_some hr, List.nodup_cons]
+          refine ⟨?_, h2⟩
+          intro hm
+          rw [List.mem_filterMap] at hm
+          obtain ⟨g, hg, hgr⟩ := hm
+          obtain ⟨lg, hlg, hnot⟩ := h1 g hg
+          simp only [reqOf, hlg, Option.map_some, Option.some.injEq] at hgr
+          exact hnot (by rw [hgr]; exact List.mem_cons_self)
+
+/-- nothing is lost: every file holding a status has its request id listed by a file that is at
+    least as new (or the id was already seen before the loop started) -/
+theorem dedup_complete (l : List RunFile) (seen : List Nat) (hd : Desc l) :
+    ∀ g ∈ l, ∀ ln, parse g = some ln →
+      ln.req ∈ seen ∨ ∃ f ∈ dedupFiles l seen, reqOf f = some ln.req ∧ g.stamp ≤ f.stamp := by
+  induction l generalizing seen with
+  | nil => intro g hg; cases hg
+  | cons f fs ih =>
+    have hy := List.pairwise_cons.mp hd
+    intro g hg ln hgl
+    simp only [dedupFiles]
+    rcases List.mem_cons.mp hg with rfl | hg
+    · simp only [hgl]
+      split
+      · rename_i hs; exact Or.inl (by simpa using hs)
+      · exact Or.inr ⟨g, List.mem_cons_self, by simp [reqOf, hgl], Nat.le_refl _⟩
+    · split
+      · exact ih seen hy.2 g hg ln hgl
+      · rename_i lf hpf
+        split
+        · exact ih seen hy.2 g hg ln hgl
+        · rcases ih (lf.req :: seen) hy.2 g hg ln hgl with h | ⟨f', hf', hr, hle⟩
+          · rcases List.mem_cons.mp h with h | h
+            · exact Or.inr ⟨f, List.mem_cons_self, by simp [reqOf, hpf, h], hy.1 g hg⟩
+            · exact Or.inl h
+          · exact Or.inr ⟨f', List.mem_cons_of_mem _ hf', hr, hle⟩
 
 end BdModel.Hist
